@@ -96,10 +96,14 @@ func init() {
 			hdr[e.k] = append(hdr[e.k], e.v...)
 		}
 		charset := c.Choose("content-type-charset", 2) == 1
+		http3 := c.Choose("http-version-3", 2) == 1
 		call := &mxCall{Base: b, ReqMsgs: req, ReqFlags: reqFlags, Accept: accept, RespMsgs: resp, RespComp: "auto", ReqHeader: hdr, Lenient: true}
 		call.SpecMut = func(s *drive_ReqSpec) {
 			if autoCL && s.Body != nil {
 				s.ContentLength = -2
+			}
+			if http3 && b.Client.form != wire.GRPC {
+				s.ProtoMajor = 3 // the client reached the server over HTTP/3
 			}
 			if charset && (b.Client.form == wire.ConnectUnary || b.Client.form == wire.REST) && b.ClientCodec == "json" && s.Header.Get("Content-Type") != "" {
 				s.Header.Set("Content-Type", "application/json; charset=utf-8")
@@ -136,6 +140,9 @@ func init() {
 		}
 		for _, cm := range br.Complaints {
 			fail(cm.Clause, "%s", cm.Detail)
+		}
+		if br.Form == wire.GRPC && be.Seen != nil && be.Seen.ProtoMajor != 2 {
+			fail("grpc-not-http2", "the backend is addressed in gRPC with a request that claims %s (gRPC servers refuse anything but HTTP/2)", be.Seen.Proto)
 		}
 		if br.FlaggedEmpty > 0 && (obs.Spec.Body == nil || wire.CountFlaggedEmpty(obs.Spec.Body.Data) == 0) {
 			fail("req.envelope.empty-flagged-compressed", "%d message frame(s) reach the backend with the compressed flag over zero bytes, which is not a valid compressed stream; the client sent no such frame", br.FlaggedEmpty)
